@@ -12,7 +12,7 @@ Local Open Scope Z_scope.
 
 (* One step: InteractiveContext.step() = a manual SimulationContext.step() = the step inside run() - same next state
    and same four events (time, step size, index), whatever the components do.
-   (was refuted before commits 58535de7 [F-B] and a70d8de6 [F-C]; see the two _needs_ lemmas below) *)
+   (was refuted before commits 58535de7 [F-B] and a70d8de6 [F-C]; see the _needs_ lemmas below) *)
 Theorem C01_driver_step_eq : forall react req s,
   step_interactive react req current s = step_manual react req current s /\
   step_manual react req current s = step_run react req current s.
@@ -33,24 +33,31 @@ Theorem C01_n_steps_is_run : forall f n s s' evs fuel, steps f n s = Ok (s', evs
   E s' <= T s' -> (n <= fuel)%nat -> run_loop f fuel s = Ok (s', evs).
 Proof. exact run_loop_complete. Qed.
 
-(* InteractiveContext.run / run_until(stop) takes the same steps as run() when the global step is constant (no step
-   modifier registered).  PARTIAL: with per-simulant clocks the statement is false - see C01_run_until_variable_step_refuted. *)
-Theorem C01_run_until_eq_run_const_step_partial : forall react req s,
-  indiv s = false -> 0 < S s -> T s - S s < E s ->
-  forall fuel, (Z.to_nat (cdiv (E s - T s) (S s)) <= fuel)%nat ->
-  run_interactive react req current s = run_loop (step_run react req current) fuel s /\
-  exists s' evs, run_interactive react req current s = Ok (s', evs).
-Proof. exact run_until_const. Qed.
+(* InteractiveContext.run() / run_until(stop_time) is the same loop as SimulationContext.run(): same final state and
+   schedule for EVERY component behaviour, per-simulant clocks included.
+   (was refuted before commit 98b7435f [F-AB]: the iteration count was computed once from the current global step) *)
+Theorem C01_run_until_eq_run : forall react req fuel s,
+  run_interactive react req current fuel s = run_loop (step_run react req current) fuel s.
+Proof. exact run_until_eq_run. Qed.
 
-(* NEW FINDING (named F-AB in the report): InteractiveContext.run() computes its iteration count once from the current
-   global step; with a varying global step it silently takes a different number of steps than SimulationContext.run(). *)
-Theorem C01_run_until_variable_step_refuted :
+(* run_for(d) is run_until(clock + d); and run_until(e), for any end time e, is exactly some number of steps of the
+   common step function, stopping at the first step boundary with e <= clock *)
+Theorem C01_run_for_is_run_until : forall react req d fuel s,
+  run_for react req current d fuel s = run_until react req current (T s + d) fuel s.
+Proof. exact run_for_is_run_until. Qed.
+Theorem C01_run_until_is_n_steps : forall react req e fuel s s' evs,
+  run_until react req current e fuel s = Ok (s', evs) ->
+  exists n, (n <= fuel)%nat /\ steps (step_interactive react req current) n s = Ok (s', evs) /\ e <= T s'.
+Proof. intros react req e. exact (loop_until_sound (step_interactive react req current) e). Qed.
+
+(* the pre-98b7435f run_until (kept as run_until_old in Sim.v) really differed from run() with per-simulant clocks *)
+Theorem C01_run_until_needs_FAB_fix :
   exists react req s,
     res_T (run_loop (step_run react req current) 10 s) = Some 4 /\
-    res_T (run_interactive react req current s) = Some 5 /\
+    res_T (run_interactive_old react req current s) = Some 5 /\
     res_events (run_loop (step_run react req current) 10 s) = Some 12%nat /\
-    res_events (run_interactive react req current s) = Some 16%nat.
-Proof. exact run_until_variable_step_differs. Qed.
+    res_events (run_interactive_old react req current s) = Some 16%nat.
+Proof. exact run_until_old_variable_step_differs. Qed.
 
 (* The two repaired defects really were violations of step equality (the theorem is breakable). *)
 Theorem C01_step_eq_needs_FB_fix :
@@ -106,8 +113,10 @@ Print Assumptions C01_driver_step_eq.
 Print Assumptions C01_driver_equiv.
 Print Assumptions C01_run_is_n_steps.
 Print Assumptions C01_n_steps_is_run.
-Print Assumptions C01_run_until_eq_run_const_step_partial.
-Print Assumptions C01_run_until_variable_step_refuted.
+Print Assumptions C01_run_until_eq_run.
+Print Assumptions C01_run_for_is_run_until.
+Print Assumptions C01_run_until_is_n_steps.
+Print Assumptions C01_run_until_needs_FAB_fix.
 Print Assumptions C01_step_eq_needs_FB_fix.
 Print Assumptions C01_step_eq_needs_FC_fix.
 Print Assumptions C01_name_only.
